@@ -508,6 +508,103 @@ impl OrdElem for Fat {
     }
 }
 
+/// An element whose `Ord::cmp` makes a (tiny) bulk selection of its own before
+/// comparing: the library is re-entered on the same thread while an outer call
+/// is in progress, as happens with element types that summarise a series.
+#[derive(Clone, Copy, Debug)]
+pub struct Reent(pub i64);
+thread_local! {
+    static REENT_DEPTH: std::cell::Cell<u32> = std::cell::Cell::new(0);
+}
+fn reenter(seed: i64) {
+    use ndarray_stats::Sort1dExt;
+    let nested = REENT_DEPTH.with(|d| {
+        let v = d.get();
+        d.set(v + 1);
+        v
+    });
+    if nested == 0 {
+        let k = (seed & 3) as i32;
+        let mut a = ndarray::arr1(&[3 + k, 1, 2, 5, 4]);
+        let m = a.get_many_from_sorted_mut(&ndarray::arr1(&[0usize, 4, 2]));
+        // the nested call must itself be right
+        assert!(m[&0] == 1 && (m[&2] == 3 || m[&2] == 4) && m[&4] == 5.max(3 + k), "nested bulk selection returned {:?}", m);
+    }
+    REENT_DEPTH.with(|d| d.set(d.get() - 1));
+}
+impl PartialEq for Reent {
+    fn eq(&self, o: &Reent) -> bool {
+        self.0 == o.0
+    }
+}
+impl Eq for Reent {}
+impl PartialOrd for Reent {
+    fn partial_cmp(&self, o: &Reent) -> Option<std::cmp::Ordering> {
+        Some(self.cmp(o))
+    }
+}
+impl Ord for Reent {
+    fn cmp(&self, o: &Reent) -> std::cmp::Ordering {
+        reenter(self.0 ^ o.0);
+        self.0.cmp(&o.0)
+    }
+}
+macro_rules! reent_op {
+    ($tr:ident, $f:ident, $w:ident) => {
+        impl std::ops::$tr for Reent {
+            type Output = Reent;
+            fn $f(self, o: Reent) -> Reent {
+                Reent(self.0.$w(o.0))
+            }
+        }
+    };
+}
+reent_op!(Add, add, wrapping_add);
+reent_op!(Sub, sub, wrapping_sub);
+reent_op!(Mul, mul, wrapping_mul);
+impl std::ops::Div for Reent {
+    type Output = Reent;
+    fn div(self, o: Reent) -> Reent {
+        Reent(if o.0 == 0 { 0 } else { self.0.wrapping_div(o.0) })
+    }
+}
+impl std::ops::Rem for Reent {
+    type Output = Reent;
+    fn rem(self, o: Reent) -> Reent {
+        Reent(if o.0 == 0 { 0 } else { self.0.wrapping_rem(o.0) })
+    }
+}
+impl FromPrimitive for Reent {
+    fn from_i64(n: i64) -> Option<Reent> {
+        Some(Reent(n))
+    }
+    fn from_u64(n: u64) -> Option<Reent> {
+        i64::try_from(n).ok().map(Reent)
+    }
+}
+impl ToPrimitive for Reent {
+    fn to_i64(&self) -> Option<i64> {
+        Some(self.0)
+    }
+    fn to_u64(&self) -> Option<u64> {
+        u64::try_from(self.0).ok()
+    }
+}
+impl Elem for Reent {
+    const TY: ElemTy = ElemTy::Reent;
+    fn from_raw(r: i64) -> Self {
+        Reent(r)
+    }
+    fn to_raw(&self) -> i64 {
+        self.0
+    }
+}
+impl OrdElem for Reent {
+    fn num(&self) -> NumVal {
+        NumVal::I(self.0 as i128)
+    }
+}
+
 /// numeric value of a raw encoding, for reference computations
 pub fn num_of_raw(ty: ElemTy, raw: i64) -> NumVal {
     match ty {
